@@ -712,4 +712,59 @@ def rule_f(ctx):
     return r
 
 
-RULES = [rule_a, rule_b, rule_c, rule_d, rule_e, rule_f]
+
+def _num_of(unit_ap):
+    """The magnitude that belongs to a unit access path (inverse of _sibling)."""
+    if not unit_ap.proj:
+        return None
+    last = unit_ap.proj[-1]
+    if last == "unit":
+        return an.AP(unit_ap.root, unit_ap.proj[:-1] + ("num",))
+    if last == "#1":
+        return an.AP(unit_ap.root, unit_ap.proj[:-1] + ("#0",))
+    return None
+
+
+def rule_g(ctx):
+    r = RuleResult("C08-g", "magnitudes of two numbers are compared or combined raw (without convert) only where their units were found equal or one side is unitless: "
+                   "in every function that converts between a pair of operand units, each ==/partial_cmp/+/- of the two unconverted magnitudes is guarded that way")
+    from .. import psa as _psa
+    prog = ctx.prog()
+    n = 0
+    seen = set()
+    for s_ in conv.find_sites(prog):
+        if s_.kind != "convert":
+            continue
+        b = s_.call.body
+        A, B = s_.to, s_.frm  # units of the left and the converted operand
+        na, nb = _num_of(A), _num_of(B)
+        if na is None or nb is None or (b.path, repr(A), repr(B)) in seen:
+            continue
+        seen.add((b.path, repr(A), repr(B)))
+        pk = conv.pair_key(A, B)
+        classify = conv.make_classifier(prog, A, B)
+        uses = []
+        for c in b.calls():
+            if len(c.args) == 2 and an.tail2(c.callee) in ("PartialEq::eq", "PartialEq::ne", "PartialOrd::partial_cmp", "PartialOrd::lt", "PartialOrd::le", "PartialOrd::gt",
+                                                            "PartialOrd::ge", "Add::add", "Sub::sub", "Rem::rem", "Ord::cmp"):
+                x, y = an.trace_operand(b, c.args[0]), an.trace_operand(b, c.args[1])
+                if {repr(x), repr(y)} == {repr(na), repr(nb)}:
+                    uses.append(c)
+        for c in uses:
+            n += 1
+            key = "%s|raw-%s-of-both-magnitudes" % (b.path, an.tail2(c.callee).split("::")[-1])
+            vals, complete = _psa.valuations_at(b, c.bb, classify)
+            ok = complete and bool(vals)
+            for v in vals:
+                if not (v.get(("EQ", pk)) is True or v.get(("ISNONE", A.key())) is True or v.get(("ISNONE", B.key())) is True):
+                    ok = False
+            if ok:
+                r.ok(key)
+            else:
+                r.violate(key, "%s applies %s to the two magnitudes %r and %r without converting one of them, on a path where the units have not been found equal and neither "
+                          "side is unitless: `1in > 1cm` style comparisons then ignore the CSS ratios" % (b.path, an.tail2(c.callee), na, nb), c.loc())
+    r.floor("raw uses of both magnitudes", n, 4)
+    return r
+
+
+RULES = [rule_a, rule_b, rule_c, rule_d, rule_e, rule_f, rule_g]
